@@ -50,6 +50,11 @@ class Script:
 
     async def sleep(self, _interval):
         o = self._outcome()
+        if len(self.events) > 4 * len(self.script) + 8:
+            # the loop keeps iterating without consuming the script (e.g. a sender that
+            # silently skips): record it and stop instead of spinning forever
+            self.events.append("runaway")
+            o = None
         if o is None:
             await self._park()
         self.events.append("sleep")
@@ -149,6 +154,70 @@ async def run_ap2(protocol_mod, sc):
     return sc
 
 
+async def run_mrp_real(script):
+    """MrpProtocol.enable_heartbeat with the REAL send_and_receive/_receive/stop under
+    virtual time: o = the device answers the keep-alive, f = no answer (5 s timeout),
+    c = stop() while the keep-alive is in flight, s = stop() at the first await of the
+    iteration.  Observed: number of keep-alives sent, number of connection.close() calls."""
+    from pyatv.protocols.mrp import messages, protobuf
+    from pyatv.protocols.mrp import protocol as mrp_protocol
+
+    sends, closes = [], []
+    send_evt = asyncio.Event()
+
+    class Conn:
+        listener = None
+
+        def send(self, msg):
+            sends.append(msg)
+            send_evt.set()
+
+        def close(self):
+            closes.append(1)
+
+        def __str__(self):
+            return "verif"
+
+    prot = mrp_protocol.MrpProtocol(Conn(), None, None, None)
+    prot._state = mrp_protocol.ProtocolState.READY
+    prot.enable_heartbeat()
+    task = prot._heartbeat_task
+    stopped = False
+    for o in script:
+        if task.done():
+            break
+        if o == "s":
+            await asyncio.sleep(0.5)
+            prot.stop()
+            stopped = True
+            break
+        try:
+            await asyncio.wait_for(send_evt.wait(), 60)
+        except asyncio.TimeoutError:
+            break
+        send_evt.clear()
+        if o == "o":
+            reply = messages.create(protobuf.GENERIC_MESSAGE)
+            reply.identifier = sends[-1].identifier
+            prot.message_received(reply, None)
+            await asyncio.sleep(0.01)
+        elif o == "f":
+            await asyncio.sleep(6)
+        else:
+            prot.stop()
+            stopped = True
+            break
+    await asyncio.sleep(20)  # anything the loop still wants to do after a stop happens now
+    observed = (len(sends), len(closes), stopped, task.done())
+    if not task.done():
+        task.cancel()
+        try:
+            await task
+        except (asyncio.CancelledError, Exception):  # noqa: BLE001
+            pass
+    return observed
+
+
 def oracle(retries, script, events, variant):
     """The property, stated directly (independent of the Lean model)."""
     problems = []
@@ -221,6 +290,23 @@ def execute(protocol_mod, cases):
     return results
 
 
+def run_real_cases(cases):
+    from harness.core import vloop
+
+    out = []
+    for i in range(0, len(cases), 50):
+        async def batch(chunk):
+            res = []
+            for sc in chunk:
+                try:
+                    res.append(await run_mrp_real(sc))
+                except Exception as e:  # noqa: BLE001
+                    res.append("error:" + type(e).__name__)
+            return res
+        out += vloop.run(batch, cases[i:i + 50])
+    return out
+
+
 def run(ctx, only=None):
     from pyatv.core import protocol as protocol_mod
 
@@ -239,6 +325,39 @@ def run(ctx, only=None):
         cases = only
 
     results = execute(protocol_mod, cases)
+
+    real_len = ctx.scale(5, 6)
+    # every real-MRP script ends with a stop (in flight) unless it already contains one:
+    # the real loop cannot be frozen mid-iteration the way the scripted fakes can
+    real_cases = sorted({sc if ("s" in sc or "c" in sc) else sc + "c" for sc in scripts(real_len)}) if only is None else []
+    real_results = run_real_cases(real_cases)
+    real_answers = ctx.lean([f"run {default_r} {sc or '-'}" for sc in real_cases])
+    for sc, obs, ans in zip(real_cases, real_results, real_answers):
+        ctx.note("variant:mrp-real")
+        if isinstance(obs, str):
+            ctx.disagree({"variant": "mrp-real", "script": sc}, obs, ans, where="mrp-real run failed")
+            continue
+        n_sends, n_closes, stopped, done = obs
+        _it, ev = ans.split(" ")
+        ev = [] if ev == "-" else ev.split(",")
+        # a trailing cancel-in-sleep at attempts=0 sends nothing in the model and here
+        want_sends = ev.count("send")
+        want_closes = 1 if ("failure" in ev or "finish" in ev) else 0
+        ctx.case(["mrp-real", default_r, sc], "failure" in ev or "finish" in ev,
+                 sample={"variant": "mrp-real", "script": sc, "sends": n_sends, "closes": n_closes})
+        ctx.validated()
+        if (n_sends, n_closes) != (want_sends, want_closes):
+            ctx.disagree({"variant": "mrp-real", "script": sc}, f"sends={n_sends} closes={n_closes}",
+                         f"sends={want_sends} closes={want_closes} ({ans})", where="mrp-real keep-alives sent / connection.close calls")
+        # direct oracle (property text): a stop() never reports a failure => exactly the one
+        # close() of stop() itself; a dead connection is reported (closed) exactly once
+        if stopped and n_closes != 1:
+            ctx.fail("mrp-real:close-count-after-stop", {"variant": "mrp-real", "retries": default_r, "script": sc},
+                     f"connection.close() called {n_closes} times", "exactly once (by stop() itself)",
+                     "stopping while a keep-alive is outstanding reported a connection failure")
+        if not stopped and n_closes > 1:
+            ctx.fail("mrp-real:failure-reported-twice", {"variant": "mrp-real", "retries": default_r, "script": sc},
+                     f"connection.close() called {n_closes} times", "at most once", "dead connection reported more than once")
 
     answers = ctx.lean([f"run {r} {s or '-'}" for (_v, r, s, _e, _i) in results])
     for (variant, r, s, events, consumed), ans in zip(results, answers):
